@@ -140,7 +140,8 @@ func (n *NodeState) Clone() *NodeState {
 }
 
 // IsNewerThan 按分代、逻辑时钟与时间戳判断是否比 other 更新（用于合并时采纳新状态、避免脑裂采纳旧实例）。
-// 先比较 Generation；同分代且为同一节点时若双方均有 LogicalClock 则比较 LogicalClock；否则比较 Timestamp。
+// 先比较 Generation；同分代且为同一节点时若双方均有 LogicalClock 且不相等则比较 LogicalClock；否则比较 Timestamp。
+// 分代不持久化：旧条目已被种子剔除后重启的节点会再次得到相同的 Generation 与 LogicalClock，此时由 Timestamp 区分新旧实例。
 func (n *NodeState) IsNewerThan(other *NodeState) bool {
 	if other == nil {
 		return true
@@ -148,7 +149,7 @@ func (n *NodeState) IsNewerThan(other *NodeState) bool {
 	if n.Generation != other.Generation {
 		return n.Generation > other.Generation
 	}
-	if n.ID == other.ID && n.LogicalClock != 0 && other.LogicalClock != 0 {
+	if n.ID == other.ID && n.LogicalClock != 0 && other.LogicalClock != 0 && n.LogicalClock != other.LogicalClock {
 		return n.LogicalClock > other.LogicalClock
 	}
 	return n.Timestamp > other.Timestamp
